@@ -14,8 +14,23 @@ import (
 	"fmt"
 	"math/big"
 	"strings"
+	"sync"
 	"unicode"
 )
+
+// histogram of what the oracle actually judged (flushed into the result at the end)
+var (
+	statMu sync.Mutex
+	stats  = map[string]int{}
+	// the dispatcher's documented rule for null arguments (4d3f28e), probed on the real server
+	oracleNullRule bool
+)
+
+func statHit(name string) {
+	statMu.Lock()
+	stats[name]++
+	statMu.Unlock()
+}
 
 type Verdict struct {
 	Sig  string
@@ -360,6 +375,14 @@ func bindArgs(ms *MethodSpec, params *J) ([]*J, int) {
 	args := make([]*J, total)
 	unknown := false
 	setArg := func(i int, v *J) bool {
+		if v.K == 'n' && oracleNullRule {
+			// null = "not given": zero value for an optional parameter, never a value of a required one
+			if !ms.Params[i].Optional {
+				return false
+			}
+			args[i] = zeroOf(ms.Params[i].Ty)
+			return true
+		}
 		a, st := fit(ms.Params[i].Ty, v)
 		switch st {
 		case bindNo:
@@ -609,13 +632,29 @@ func (e *entry) accepts(w *World, r *respInfo, single bool) (bool, *Verdict) {
 		if !r.hasError {
 			return false, nil
 		}
-		if !(r.code == "-32600" || (single && r.code == "-32700")) {
+		var verdict *Verdict
+		switch {
+		case r.code == "-32600":
+		case single && r.code == "-32700" && isNull && e.goDecodeFails():
+			// juno's deliberate choice (pinned by its tests): a type error of Decode(*Request) is a "parse error"
+			verdict = &Verdict{Sig: "single-invalid-request-answered-with-parse-error",
+				What: "valid JSON that is not a Request object must be answered -32600 (it is, inside a batch); as a single request it gets " + r.src.String() + " for " + e.src.String()}
+		default:
 			return false, nil
 		}
-		// id null, or the request's own id member echoed verbatim (even when that member is not a legal id)
-		// (an echoed array / object id has been through a Go map: compared by kind only)
+		// id null, or the request's own id member echoed verbatim
 		idv := e.src.get("id")
-		return isNull || sameJSON(idv, r.id) || (idv != nil && idv.K == r.id.K && (idv.K == '[' || idv.K == '{')), nil
+		switch {
+		case isNull:
+			return true, verdict
+		case idv != nil && (idv.K == 's' || idv.K == '#') && sameJSON(idv, r.id):
+			return true, verdict
+		case idv != nil && idv.K == r.id.K && (sameJSON(idv, r.id) || idv.K == '[' || idv.K == '{'):
+			// not a String / Number / Null: an illegal response id (an array / object has been through a Go map)
+			return true, &Verdict{Sig: "invalid-request-echoes-structured-id",
+				What: "an Invalid Request answer carries the request's id although it is not a string, a number or null: " + r.src.String() + " for " + e.src.String()}
+		}
+		return false, nil
 	case ekFuzzy:
 		if neither {
 			if e.mayCallNilres(w) {
@@ -689,11 +728,53 @@ func (e *entry) accepts(w *World, r *respInfo, single bool) (bool, *Verdict) {
 			return r.data != nil && sameJSON(e.args[0], r.data), nil
 		case "internal":
 			return r.hasError && r.code == "-32603" && r.data == nil, nil
+		case "unmarshalable", "panic":
+			// the handler failed: the request must still be answered, with an error (-32603 is the obvious one)
+			return r.hasError && r.code == "-32603", nil
 		case "both":
 			return r.hasError && r.code == "7" && !r.hasResult, nil
 		}
 	}
 	return false, nil
+}
+
+// goDecodeFails: json.Decode into jsonrpc.Request returns a type error for this value (not an object, or
+// an ill-typed jsonrpc / method member) — the only shape for which the -32700 deviation is "known"
+func (e *entry) goDecodeFails() bool {
+	if e.src.K == 'n' {
+		return false
+	}
+	if e.src.K != '{' {
+		return true
+	}
+	for _, k := range []string{"jsonrpc", "method"} {
+		if v := e.src.get(k); v != nil && v.K != 's' && v.K != 'n' {
+			return true
+		}
+	}
+	return false
+}
+
+// callsBeh: the entry (plainly) calls a handler with this behaviour
+func (e *entry) callsBeh(w *World, behs ...string) bool {
+	beh := ""
+	if e.known && e.ms != nil {
+		beh = e.ms.Beh
+	} else if e.kind == ekFuzzy && e.src.K == '{' {
+		for _, m := range e.src.O {
+			if foldASCII(m.K) == "METHOD" && m.V.K == 's' {
+				if ms, ok := w.byName[m.V.S]; ok {
+					beh = ms.Beh
+				}
+			}
+		}
+	}
+	for _, b := range behs {
+		if b == beh {
+			return true
+		}
+	}
+	return false
 }
 
 func nilResultVerdict(r *respInfo, e *entry) *Verdict {
@@ -716,7 +797,9 @@ func (e *entry) mayCallNilres(w *World) bool {
 	return false
 }
 
-func (e *entry) mustRespond() bool { return e.kind == ekInvalid || e.kind == ekCall }
+func (e *entry) mustRespond() bool {
+	return e.kind == ekInvalid || e.kind == ekCall || e.kind == ekNullID
+}
 
 // expectedCall: the invocation this entry must cause (nil: none, unknown=true: cannot say)
 func (e *entry) expectedCall() (c *Call, unknown bool) {
@@ -736,6 +819,22 @@ func (e *entry) expectedCall() (c *Call, unknown bool) {
 		return nil, true
 	}
 	return &Call{Method: e.method, Args: e.args}, false
+}
+
+// soleEntry: the classified request of a single (non-batch) input
+func soleEntry(w *World, input []byte) (*entry, error) {
+	raw, err := firstValue(input)
+	if err != nil {
+		return nil, err
+	}
+	t, err := parseTree(raw)
+	if err != nil {
+		return nil, err
+	}
+	if t.K == '[' {
+		return nil, fmt.Errorf("batch")
+	}
+	return classify(w, t), nil
 }
 
 type Obs struct {
@@ -763,7 +862,11 @@ func judge(w *World, input []byte, o Obs) []Verdict {
 		vs = append(vs, Verdict{Sig: sig, What: fmt.Sprintf(f, a...) + " | input " + short(input) + " | output " + short(o.Out)})
 	}
 	if o.Panicked {
-		add("server-panics", "the server panicked: %s", o.PanicMsg)
+		if t, err := soleEntry(w, input); err == nil && t.callsBeh(w, "panic") {
+			add("handler-panic-escapes-to-transport", "the handler of %s panicked and the panic escaped HandleReader (no recover): %s", t.src.String(), firstLines(o.PanicMsg, 2))
+		} else {
+			add("server-panics", "the server panicked: %s", o.PanicMsg)
+		}
 		return vs
 	}
 	if o.Dropped != "" {
@@ -775,7 +878,11 @@ func judge(w *World, input []byte, o Obs) []Verdict {
 		return vs
 	}
 	if o.Err != nil {
-		add("server-returns-go-error", "HandleReader returned an error instead of a response: %v", o.Err)
+		if t, err := soleEntry(w, input); err == nil && t.callsBeh(w, "unmarshalable") {
+			add("unmarshallable-result-go-error-no-response", "the handler of %s returned a value json.Marshal rejects: HandleReader returns a Go error and no response (HTTP: 500 with an empty body, WebSocket: connection closed): %v", t.src.String(), o.Err)
+		} else {
+			add("server-returns-go-error", "HandleReader returned an error instead of a response: %v", o.Err)
+		}
 		return vs
 	}
 	for _, p := range o.RecErrs {
@@ -879,6 +986,12 @@ func judge(w *World, input []byte, o Obs) []Verdict {
 		entries = []*entry{classify(w, tree)}
 	}
 
+	for _, e := range entries {
+		statHit("oracle:entry:" + []string{"invalid", "notification", "null-id", "call", "fuzzy"}[e.kind])
+		if e.known && (e.kind == ekCall || e.kind == ekNotif || e.kind == ekNullID) {
+			statHit("oracle:bind:" + []string{"ok", "refused", "unknown"}[e.bind])
+		}
+	}
 	// responses
 	var resps []*J
 	switch {
@@ -1060,7 +1173,16 @@ func judge(w *World, input []byte, o Obs) []Verdict {
 	}
 	for _, e := range entries {
 		if e.mustRespond() && !e.matched {
-			add("request-without-response", "no response for request %s", e.src.String())
+			switch {
+			case e.kind == ekNullID:
+				add("request-with-null-id-not-answered", "a Request with \"id\": null is not a notification and must be answered (with id null); no response for %s", e.src.String())
+			case e.callsBeh(w, "unmarshalable") && e.bind != bindNo:
+				add("unmarshallable-result-entry-dropped-from-batch", "the handler of %s returned a value json.Marshal rejects: the entry is silently missing from the batch response", e.src.String())
+			case e.callsBeh(w, "panic") && e.bind != bindNo:
+				add("handler-panic-swallowed-entry-dropped-from-batch", "the handler of %s panicked: the worker pool swallowed the panic and the entry is missing from the batch response", e.src.String())
+			default:
+				add("request-without-response", "no response for request %s", e.src.String())
+			}
 		}
 	}
 
